@@ -74,6 +74,38 @@ seed("C17", "continuous-only-when-idle", "continuous recorder skipped while a mo
 seed("C17", "continuous-throttled", "continuous sink routed through the throttler", ["C17.V5"],
      ("cmd/thermal-recorder/main.go", "\t\theaderInfo,\n\t\tconstantRecorder,", "\t\theaderInfo,\n\t\tthrottle.NewThrottledRecorder(constantRecorder, &conf.Throttler, 1, nil, headerInfo),"))
 
+TH = "throttle/throttled_recorder.go"
+MAIN = "cmd/thermal-recorder/main.go"
+# ---- C05
+seed("C05", "forward-before-take", "frame forwarded before the token is taken", ["C05.T1"],
+     (TH, "\tif throttler.bucket.TakeAvailable(1) > 0 {\n\t\treturn throttler.recorder.WriteFrame(frame)\n\t}\n",
+          "\terr := throttler.recorder.WriteFrame(frame)\n\tif throttler.bucket.TakeAvailable(1) > 0 {\n\t\treturn err\n\t}\n"))
+seed("C05", "bucket-const-fps", "bucket capacity from a constant fps", ["C05.T2"],
+     (TH, "bucketFrames := int64(config.BucketSize.Seconds()) * int64(camera.FPS())", "bucketFrames := int64(config.BucketSize.Seconds()) * 9"))
+seed("C05", "refill-per-second", "refill rate ignores min-refill", ["C05.T2"],
+     (TH, "refillRate := float64(minFrames) / config.MinRefill.Seconds()", "refillRate := float64(minFrames)"))
+seed("C05", "min-length-without-preview", "minimum recording length without preview-secs", ["C05.T3"],
+     (MAIN, "minRecordingLength := conf.Recorder.MinSecs + conf.Recorder.PreviewSecs", "minRecordingLength := conf.Recorder.MinSecs"))
+seed("C05", "activate-ignored", "bare recorder wired although the throttler is activated", ["C05.T3"],
+     (MAIN, "\t\trecorder = throttle.NewThrottledRecorder(", "\t\t_ = throttle.NewThrottledRecorder("))
+seed("C05", "take-two", "two tokens per frame", ["C05.T1"],
+     (TH, "throttler.bucket.TakeAvailable(1) > 0", "throttler.bucket.TakeAvailable(2) > 0"))
+# ---- C06
+seed("C06", "event-per-dropped-frame", "an event for every frame dropped while throttled", ["C06.X3"],
+     (TH, "\t\tif !throttler.recording {\n\t\t\treturn nil\n\t\t}\n", "\t\tif !throttler.recording {\n\t\t\tthrottler.listener.WhenThrottled()\n\t\t\treturn nil\n\t\t}\n"))
+seed("C06", "restart-without-budget", "mid-trigger restart without the Available test", ["C06.X2"],
+     (TH, "\tif !throttler.recording {\n\t\tif err := throttler.maybeStartRecording(throttler.backgroundFrame, throttler.tempThresh); err != nil {\n\t\t\treturn err\n\t\t}\n",
+          "\tif !throttler.recording {\n\t\tif err := throttler.recorder.StartRecording(throttler.backgroundFrame, throttler.tempThresh); err != nil {\n\t\t\treturn err\n\t\t}\n\t\tthrottler.recording = true\n"))
+seed("C06", "flag-not-cleared-on-cut", "recording flag left set after the cut", ["C06.X1", "C06.X3"],
+     (TH, "\tif throttler.recording {\n\t\tthrottler.recording = false\n\t\treturn throttler.recorder.StopRecording()\n\t}", "\tif throttler.recording {\n\t\treturn throttler.recorder.StopRecording()\n\t}"))
+seed("C06", "swap-remembered", "remembered background/threshold not stored (restart uses stale values)", ["C06.X4"],
+     (TH, "\tthrottler.backgroundFrame = background\n", ""))
+seed("C06", "flag-before-start", "recording flag set although the wrapped start failed", ["C06.X1"],
+     (TH, "\t\tif err := throttler.recorder.StartRecording(background, tempThresh); err != nil {\n\t\t\treturn err\n\t\t}\n\t\tthrottler.recording = true",
+          "\t\tthrottler.recording = true\n\t\tif err := throttler.recorder.StartRecording(background, tempThresh); err != nil {\n\t\t\treturn err\n\t\t}"))
+seed("C06", "min-length-const-fps", "minimum length from a constant fps", ["C06.X2"],
+     (TH, "minFrames := int64(minSeconds * camera.FPS())", "minFrames := int64(minSeconds * 9)"))
+
 here = os.path.dirname(os.path.abspath(__file__))
 for pid, name, d in S:
     os.makedirs(os.path.join(here, pid), exist_ok=True)
